@@ -4,7 +4,7 @@ open Kcore
 let b v = str v = "1"
 let rec nat_of_int n = if n <= 0 then Datatypes.O else Datatypes.S (nat_of_int (n - 1))
 
-let param v = match lst v with [t; n; d] -> { Uml.p_type = str t; p_name = str n; p_default = str d } | _ -> failwith "param"
+let param v = match lst v with [t; n; d; e] -> { Uml.p_type = str t; p_name = str n; p_default = str d; p_ext = str e } | _ -> failwith "param"
 let oper v = match lst v with
   | [n; vis; ret; ps; vi; st; co] ->
       { Uml.o_name = str n; o_vis = str vis; o_ret = str ret; o_params = List.map param (lst ps); o_virtual = b vi; o_static = b st; o_const = b co }
@@ -32,12 +32,20 @@ let () =
       L (List.map (fun (f, c) -> L [S f; S c]) (Uml.files_of tf (b nsf) (diagram d))) | _ -> failwith "arity");
   register "uml_ops" (function [fuel; d; vis; id] ->
       let d = diagram d in
-      vopt_entries (Uml.ops_of (nat_of_int (int_of fuel)) d (str vis) "" (find_cls d (str id))) | _ -> failwith "arity");
+      vopt_entries (Uml.ops_of (nat_of_int (int_of fuel)) d (str vis) "" [] (find_cls d (str id))) | _ -> failwith "arity");
   register "uml_decls" (function [fuel; d; id] ->
       let d = diagram d in vopt_entries (Uml.decls_of (nat_of_int (int_of fuel)) d (find_cls d (str id))) | _ -> failwith "arity");
   register "uml_defs" (function [fuel; d; id] ->
       let d = diagram d in vopt_entries (Uml.defs_of (nat_of_int (int_of fuel)) d (find_cls d (str id))) | _ -> failwith "arity");
   register "uml_ns" (function [ns] -> L [S (Uml.ns_begin (str ns)); S (Uml.ns_end (str ns))] | _ -> failwith "arity");
+  register "uml_acyclic" (function [d] -> vbool (Uml.acyclic (diagram d)) | _ -> failwith "arity");
+  register "uml_closed" (function [d] -> vbool (Uml.closed (diagram d)) | _ -> failwith "arity");
+  register "uml_files_hyp" (function [nsf; d] ->
+      let d = diagram d in
+      L [vbool (UmlSpec.files_hyp (b nsf) d); vbool (List.for_all UmlSpec.path_ok d.Uml.classes); vbool (UmlSpec.distinct_paths (b nsf) d)]
+      | _ -> failwith "arity");
+  register "uml_expected_files" (function [nsf; d] ->
+      L (List.map (fun (f, c) -> L [S f; S c]) (UmlSpec.expected_files (b nsf) (diagram d))) | _ -> failwith "arity");
   register "uml_wf_vis" (function [d] -> vbool (Uml.wf_vis (diagram d)) | _ -> failwith "arity");
   register "uml_replace" (function [p; q; s] -> S (Uml.replace_all (str p) (str q) (str s)) | _ -> failwith "arity");
   register "uml_split2" (function [s] -> vstrs (Uml.split2 ':' ':' (str s)) | _ -> failwith "arity");
